@@ -119,6 +119,7 @@ class Engine:
         self._decide_cache = {}
         self.sigmas = []
         self.native_template = None
+        self._globals_cache = {}
 
     def fresh_name(self, base):
         k = self._fresh.get(base, 0)
@@ -602,7 +603,10 @@ class Engine:
         if name in mod.classes:
             return VClass(mod.classes[name])
         if name in mod.assigns:
-            return self.eval_in_module(mod.assigns[name], mod)
+            key = (mod.name, name)
+            if key not in self._globals_cache:          # module-level objects are created once (python semantics)
+                self._globals_cache[key] = self.eval_in_module(mod.assigns[name], mod)
+            return self._globals_cache[key]
         if name in mod.imports:
             return self.resolve_import(mod.imports[name])
         if name in self.models:
